@@ -86,6 +86,8 @@ class UpdateTaskState(Unit):
             "a starting report on a completed record appends a fresh record and leaves the completed one untouched"},
         "C13.uts.no_transition_on_retry": {"props": ["C13"], "text":
             "when the attempt is retried no transition is decided, nothing is staged for successors, the tally grows by exactly one and the task is re-staged ready with its retry settings"},
+        "C13.uts.retry_counted_once": {"props": ["C13", "C01"], "text":
+            "only a report that moves the record into retrying counts as a retry: any other report - in particular one that acknowledges (delayed, scheduled ...) or is ignored by a record already waiting to be retried - leaves the tally as it is and stages nothing for the task again"},
         "C13.uts.retry_only_while_active": {"props": ["C13", "C04"], "text":
             "an attempt reporting into a workflow that is no longer active (failed, paused, canceled ...) is never consumed as a retry: the task keeps its completed status and its transitions are evaluated"},
         "C13.uts.retry_only_on_completing_report": {"props": ["C13", "C18"], "text":
@@ -162,7 +164,7 @@ class UpdateTaskState(Unit):
                 row = table.get(rec if rec is not None else st.UNSET, {})
                 has_row = ("action_%s" % ev) in row
                 completing = has_row and row["action_%s" % ev] in st.COMPLETED_STATUSES
-                if cfg == "one" and (has_row or (rec in st.COMPLETED_STATUSES and
+                if cfg == "one" and (has_row or rec == st.RETRYING or (rec in st.COMPLETED_STATUSES and
                                                  ev in st.COMPLETED_STATUSES + [st.RUNNING, st.REQUESTED])):
                     keep.append(s_)
                 elif cfg in ("one+fail", "join", "dup") and completing and rec in heavy_recs and \
@@ -189,7 +191,9 @@ class UpdateTaskState(Unit):
             has_items = kind == "item"
             may_complete = kind == "action" and ev_c in st.COMPLETED_STATUSES and rec_c is not None
             light = ctx.tier != "thorough" and cfg != "one"    # quick: retry / terminal-workflow variants on "one" only
-            has_retry = may_complete and not light and e.branch(S.mk_bool("has_retry").z)
+            # a record waiting to be retried always carries its retry settings
+            has_retry = (rec_c == st.RETRYING and kind == "action") or \
+                (may_complete and not light and e.branch(S.mk_bool("has_retry").z))
             cases = WF_CASES if ctx.tier == "thorough" else ([st.RUNNING] if light else [st.RUNNING, st.FAILED])
             wf_status = cases[e.choose(len(cases))]
 
@@ -490,6 +494,16 @@ class UpdateTaskState(Unit):
             else:
                 O("C13.uts.no_transition_on_retry", True)
 
+            # a report that does not move the record INTO retrying is not a retry: nothing is counted,
+            # nothing is staged again (an acknowledged or ignored report on a record that is waiting to
+            # be retried, in particular)
+            if rec is not None and "retry" in rec and cur is rec and not (new_status == st.RETRYING and old_status != st.RETRYING):
+                old_tally = snap_seq[seq_ids.index(rec)]["retry"]["tally"]
+                same_tally = e.zbool_of(e.sym_eq(cur["retry"]["tally"], old_tally))
+                restaged = [x for x in staged if x["id"] == task_id and x is not stg]
+                O("C13.uts.retry_counted_once", z3.And(same_tally, z3.BoolVal(not restaged)))
+            else:
+                O("C13.uts.retry_counted_once", True)
             O("C13.uts.retry_only_while_active", not (new_status == st.RETRYING and old_status != st.RETRYING
                                                      and wf_status not in st.ACTIVE_STATUSES))
             O("C13.uts.retry_only_on_completing_report",
